@@ -200,6 +200,19 @@ class Analyzer:
                     else: rec(i + 1, s2)
             rec(0, st)
             return out
+        # the class of a stream item: the same position gives the same answer (peek() and the following next() denote one item)
+        if isinstance(test, ast.Call) and norm(test.func) == 'isinstance' and len(test.args) == 2:
+            saved = st.cursor
+            try:
+                v = self.ev(test.args[0], st)
+            except Unsupported:
+                v = None
+            st.cursor = saved           # (evaluating a peek does not move the stream)
+            if isinstance(v, Item):
+                key = ('isinstance', v.p, norm(test.args[1]))
+                if key in st.facts: return [(st, st.facts[key])]
+                a, b = st.clone(), st.clone(); a.facts[key] = True; b.facts[key] = False
+                return [(a, True), (b, False)]
         # emptiness / None facts
         if isinstance(test, ast.Name):
             v = st.env.get(test.id)
